@@ -6,6 +6,7 @@ use super::super::{
     meta_subscriber::MoveSubscriber,
     meta_container::MoveContainer,
 };
+#[cfg(not(feature = "verif"))]
 use std::{
     fmt::Debug,
     ptr,
@@ -18,6 +19,10 @@ use std::{
     cell::UnsafeCell,
     mem::ManuallyDrop,
 };
+#[cfg(feature = "verif")]
+use std::{fmt::Debug, ptr, sync::atomic::Ordering::Relaxed, pin::Pin, num::NonZeroU32, cell::UnsafeCell, mem::ManuallyDrop};
+#[cfg(feature = "verif")]
+use crate::verif::AtomicBool;
 
 
 /// Basis for multiple producer / multiple consumer queues using a quick-and-dirty (but fast)
